@@ -26,6 +26,10 @@ DEFS = {
                 ["rename", "touch"], ["name", "n"]),
     "GammaOp": ("op", "subscription", "GammaOp", "subscription GammaOp { tick }", ["tick"], []),
     "Esc": ("op", "query", "Esc", 'query Esc { user(id: "a\\"b\\\\c é") { name } count }', ["user", "count"], []),
+    # a block string (with an escaped triple quote), the character pairs that end raw Rust strings, a unicode escape,
+    # braces and a dollar sign inside strings
+    "Esc2": ("op", "query", "Esc2", 'query Esc2 { user(id: """blk "q" \\""" "# "## r#"x"# é {x} $y""") { name } search(filter: {text: "\\u00e9\\t{}#\\"#"}) { __typename } }',
+             ["user", "search"], []),
     "UF": ("frag", None, "UF", "fragment UF on User { id name }", None, None),
     "QF": ("frag", None, "QF", "fragment QF on Q { count }", None, None),
 }
@@ -59,6 +63,8 @@ def documents():
                     out.append(("order " + " ".join(perm), list(perm), "\n".join(DEFS[k][3] for k in perm) + "\n"))
     out.append(("escapes", ["Esc"], DEFS["Esc"][3] + "\n"))
     out.append(("escapes + others", ["Alpha", "Esc", "QF"], "\n".join(DEFS[k][3] for k in ["Alpha", "Esc", "QF"])))
+    out.append(("escapes2", ["Esc2"], DEFS["Esc2"][3] + "\n"))
+    out.append(("escapes2 + others", ["Esc2", "Alpha", "Esc"], "\r\n".join(DEFS[k][3] for k in ["Esc2", "Alpha", "Esc"])))
     return out
 
 
@@ -242,12 +248,18 @@ def run(tier):
             # classes are compiled first (the compiler's own handling of the literal - line endings, BOM - is per kind)
             d = c["desc"]
             prio = 0 if d.startswith("trivia1") else (1 if not d.startswith("trivia") else 2)
-            klass = (prio, tuple(c["keys"]) if prio != 1 else (), re.sub(r"'\d+'", "'inner'", d) if prio != 1 else re.sub(r"\d+", "", d)[:40],
+            klass = (prio, tuple(c["keys"]) if prio != 1 else (), re.sub(r"'\d+'", "'inner'", d) if prio != 1 else (d if d.startswith("escapes") else re.sub(r"\d+", "", d)[:40]),
                      c["name"] is None, c["norm"])
             if klass not in to_compile:
                 to_compile[klass] = (c, r, ops)
     compiled = []
-    chosen = sorted(to_compile.items(), key=lambda kv: kv[0][0])[:(160 if tier == "quick" else 700)]
+    by_prio = {0: [], 1: [], 2: []}
+    for kv in to_compile.items():
+        by_prio[kv[0][0]].append(kv)
+    log("[C05] conformance classes: %s" % {k: len(v) for k, v in by_prio.items()})
+    by_prio[1].sort(key=lambda kv: not kv[1][0]["desc"].startswith("escapes"))  # stable: escape documents first
+    caps = {0: 200, 1: 200, 2: 100} if tier == "quick" else {0: 400, 1: 600, 2: 600}
+    chosen = [kv for k in (0, 1, 2) for kv in by_prio[k][:caps[k]]]
     for klass, (c, r, ops) in chosen:
         mods = [(snake(o[2]), norm(o[2], c["norm"])) for o in ops]
         cid = farm.add(Case(r["tokens"], mods, prelude="pub type Date = String;", resp=False, vars_=True))
